@@ -261,6 +261,11 @@ def _run(ctx):
         if rc != 0:
             ctx.violation("coqchk", {"kind": "proof-obligation", "no_longer_checks": ["coqchk PV.Props.Properties_C04"],
                                      "build_log_tail": out[-3000:]}, False, "coqchk rejects Properties_C04.vo")
+        rc, out = pv.sh("timeout 1200 coqchk -silent -o -Q . PV PV.Props.Properties_C04_real", cwd=pv.COQ, timeout=1300)   # ~2 min
+        ctx.cov["coqchk_real"] = {"cmd": "coqchk -silent -o -Q . PV PV.Props.Properties_C04_real", "rc": rc, "tail": out[-600:]}
+        if rc != 0:
+            ctx.violation("coqchk", {"kind": "proof-obligation", "no_longer_checks": ["coqchk PV.Props.Properties_C04_real"],
+                                     "build_log_tail": out[-3000:]}, False, "coqchk rejects Properties_C04_real.vo")
 
     ctx.cov["exhaustive"] = False
     ctx.assumptions += [
